@@ -1,12 +1,11 @@
 import WS.Lemmas.HdrLogic
+import WS.Lemmas.ReaderRejects
 import WS.Gen.Skeletons
 /-
-  C04 — Framing violations are rejected fail-stop (decision core; the state-machine statements
-  `header_violation_rejected`, `topbit_length_rejected`, `nextReader_sticky` are added from
-  WS/Lemmas/ReaderRejects.lean).
+  C04 — Framing violations are rejected fail-stop and never reach the application.
 -/
 namespace WS.Props.C04
-open WS WS.HdrLogic
+open WS WS.HdrLogic WS.SrcLaw WS.ReaderRejects
 
 /-- the reader's header check reports an error exactly for the violations the property lists, for
     every header over the full alphabet, either role, negotiated or not, idle or mid-message -/
@@ -19,8 +18,7 @@ theorem closecode_spec (c : Nat) :
     isValidReceivedCloseCode c = true ↔ ((1000 ≤ c ∧ c ≤ 1003) ∨ (1007 ≤ c ∧ c ≤ 1013) ∨ (3000 ≤ c ∧ c ≤ 4999)) :=
   HdrLogic.closecode_spec c
 
-/-- the check list recognised in today's advanceFrame is the one the model implements: nine
-    checks, in this order, with these guards -/
+/-- the check list recognised in today's advanceFrame is the one the model implements -/
 theorem header_checks_as_modelled :
     Gen.headerChecks =
       [("rsv1 && !(c.newDecompressionReader != nil)", "\"RSV1 set\""),
@@ -31,7 +29,45 @@ theorem header_checks_as_modelled :
        ("switch frameType case TextMessage,BinaryMessage && !c.readFinal", "\"data before FIN\""),
        ("switch frameType case continuationFrame && c.readFinal", "\"continuation after FIN\""),
        ("switch frameType default", "\"bad opcode \"+strconv.Itoa(frameType)"),
-       ("mask != c.isServer", "\"bad MASK\"")] := by decide
+       ("mask != c.isServer", "\"bad MASK\"")] := by decide +kernel
+
+/-- C04 (state machine): at any frame boundary — idle or inside a fragmented message, either role,
+    negotiated or not, any source chunking — a header that violates the framing rules makes
+    advanceFrame fail with a protocol error; no handler runs, the frame's payload is never looked
+    at, and exactly one close frame with status 1002 is written -/
+theorem header_violation_rejected (c : Conn) (hc : AtBoundary c) (hw : WHealthy c.w) (b0 b1 : UInt8) (rest : Bytes)
+    (hp : c.r.buf.pending = b0 :: b1 :: rest)
+    (hv : Violates c.r.isServer c.r.nego (!c.r.final) (parseHdr b0 b1)) :
+    ∃ msg c', advanceFrame c = (.error (.protocol msg), c') ∧
+      c'.r.hlog = c.r.hlog ∧ c'.r.buf.pending = rest ∧
+      c'.w.wire = c.w.wire ++ closeFrameBytes c.w ((closePayload 1002 (strBytes msg)).take 125) ∧
+      c'.w.writeErr = some .closeSent := by
+  first | exact ReaderRejects.header_violation_rejected .. | (apply ReaderRejects.header_violation_rejected <;> assumption)
+
+/-- a 64-bit length with the top bit set: ErrReadLimit before any payload, a 1009 (not a 1002) close -/
+theorem topbit_length_rejected (c : Conn) (hc : AtBoundary c) (hw : WHealthy c.w) (b0 b1 : UInt8) (ext rest : Bytes)
+    (hp : c.r.buf.pending = b0 :: b1 :: ext ++ rest) (hext : ext.length = 8)
+    (hok : ¬ Violates c.r.isServer c.r.nego (!c.r.final) (parseHdr b0 b1))
+    (h127 : (parseHdr b0 b1).len7 = 127) (htop : 2 ^ 63 ≤ beVal ext) :
+    ∃ c', advanceFrame c = (.error .readLimit, c') ∧ c'.r.hlog = c.r.hlog ∧ c'.r.buf.pending = rest ∧
+      c'.w.wire = c.w.wire ++ closeFrameBytes c.w (closePayload 1009 []) ∧ c'.w.writeErr = some .closeSent := by
+  first | exact ReaderRejects.topbit_length_rejected .. | (apply ReaderRejects.topbit_length_rejected <;> assumption)
+
+/-- every later read fails with the same error, runs no handler, writes and consumes nothing -/
+theorem nextReader_sticky (c : Conn) (e : RErr) (he : c.r.readErr = some e) (hn : c.r.errCount + 1 < 1000) :
+    ∃ c', nextReader c = (.err e, c') ∧ c'.r.readErr = some e ∧ c'.w = c.w ∧ c'.r.hlog = c.r.hlog ∧
+      c'.r.buf = c.r.buf ∧ c'.r.errCount = c.r.errCount + 1 := by
+  first | exact ReaderRejects.nextReader_sticky .. | (apply ReaderRejects.nextReader_sticky <;> assumption)
+
+/-- … up to the documented panic of the 1000th call on a failed connection -/
+theorem nextReader_panics_at_1000 (c : Conn) (e : RErr) (he : c.r.readErr = some e) (hn : 1000 ≤ c.r.errCount + 1) :
+    ∃ c', nextReader c = (.panic, c') := by
+  first | exact ReaderRejects.nextReader_panics_at_1000 .. | (apply ReaderRejects.nextReader_panics_at_1000 <;> assumption)
+
+/-- nothing further is delivered through a message reader either -/
+theorem mrRead_after_error (c : Conn) (e : RErr) (he : c.r.readErr = some e) (rid k : Nat) :
+    ((mrRead c rid k).1).1 = [] ∧ ((mrRead c rid k).1).2.isSome ∧ (mrRead c rid k).2.w = c.w := by
+  first | exact ReaderRejects.mrRead_after_error .. | (apply ReaderRejects.mrRead_after_error <;> assumption)
 
 /-- non-vacuity: RSV2 on a text frame to an idle server reader is a violation, and the model flags it -/
 example : headerErrors true false true (parseHdr 0xA1 0x80) = ["RSV2 set"] := by decide
